@@ -110,7 +110,9 @@ def cfg(constraint=True):
 # abstract token stream -> text
 # --------------------------------------------------------------------------------------------
 SPELL = {
-    'NAME': ['x', 'foo', 'y1', 'été', '_'],
+    # names that are NOT reserved words but look like them: prefixes, compatibility characters whose NFKC form is a
+    # keyword (the tokenizer yields one NAME; only exact reserved strings may take a keyword transition)
+    'NAME': ['x', 'foo', 'y1', 'été', '_', 'iff', 'print', '\uff49\uff46', '\uff44\uff45\uff46', '\uff2e\uff4f\uff4e\uff45', '\uff4f\uff52'],
     'NUMBER': ['1', '0x1f', '2.5', '1e3', '3j', '1_000'],
     'STRING': ['"s"', "'s'", 'b"b"', 'r"r"', '"""t"""'],
     'FSTRING_START': ['f"'],
